@@ -1,3 +1,4 @@
+from copy import deepcopy
 from collections import OrderedDict
 
 from typedpy.structures import TypedField, Structure, ImmutableField
@@ -91,7 +92,7 @@ class Map(
             key_serialize = key_field.serialize
             value_serialize = value_field.serialize
             return {key_serialize(k): value_serialize(v) for k, v in value.items()}
-        return value
+        return deepcopy(dict(value))
 
 
 class ImmutableMap(ImmutableField, Map):
